@@ -1158,6 +1158,31 @@ def run(ctx):
         if lprobs:
             bad_layout += 1
         probs = probs + lprobs
+        # (a3) object reuse: feeding a Prox object's result back into the SAME object, and keeping an earlier result across a later
+        # call, give what two fresh objects give (a work buffer kept inside the object must not leak into results)
+        dcr = d["case"]
+        if dcr["kind"] == "prox" and dcr["spec"].get("cls") not in ("PsdProj",):
+            try:
+                a_ = alpha_py(dcr)
+                inner = np.array(build(sp, dcr["spec"], dcr["cplx"])(a_, d["x"].copy()), copy=True)
+                fresh = np.asarray(build(sp, dcr["spec"], dcr["cplx"])(a_, inner))
+                Pobj = build(sp, dcr["spec"], dcr["cplx"])
+                t1 = Pobj(a_, d["x"].copy())
+                keep = np.array(t1, copy=True)
+                t2 = np.asarray(Pobj(a_, t1))
+                hk = "reuse:same-object-twice"
+                ctx.coverage["histogram"][hk] = ctx.coverage["histogram"].get(hk, 0) + 1
+                sc = max(1.0, float(np.max(np.abs(fresh))) if fresh.size else 1.0)
+                if t2.shape != fresh.shape or not np.all(np.abs(t2 - fresh) <= 1e-12 * sc):
+                    probs.append(("object-reuse", {"expected": enc(fresh, dcr["cplx"]), "expected_shape": list(fresh.shape),
+                                                   "observed": enc(t2, dcr["cplx"]), "observed_shape": list(t2.shape),
+                                                   "what": "P(alpha, P(alpha, y)) with one object differs from the same with two fresh objects"}))
+                elif t1 is not t2 and not np.array_equal(np.asarray(t1), keep, equal_nan=True):
+                    probs.append(("result-overwritten", {"expected": enc(keep, dcr["cplx"]), "expected_shape": list(keep.shape),
+                                                         "observed": enc(np.asarray(t1), dcr["cplx"]), "observed_shape": list(np.asarray(t1).shape),
+                                                         "what": "the array returned by the first call was changed by the second call"}))
+            except Exception:      # noqa  (exceptions on valid inputs are reported by the main run)
+                pass
         # (a'') real-valued y handed over in a REAL dtype while the operator's parameters (ball centres, biases, unitary
         # matrices, nested blocks) are complex: the minimiser is the same point as for the same values stored as complex
         dc = d["case"]
